@@ -57,6 +57,7 @@ type Obligation struct {
 	Known   string // matched known finding text
 	SMTSize int
 	Tried   []string
+	Short   bool // listed known finding: decide with a short budget
 }
 
 // VC is the verification condition context of one function under contract (or one lemma).
